@@ -129,7 +129,8 @@ pub fn case_script(api: &dyn GlobalApi, va: &dyn VariantApi, s: &Script, st: &Ca
             .ok_or("stream helpers not compiled")?;
         st.eval();
         if rd.calls_after_end > 0 {
-            return Err(format!("{}: {} called read() {} more time(s) after the reader had reported end of file or a hard error", v.name, what, rd.calls_after_end));
+            // not demanded by the property (the result is judged below): recorded only
+            st.class("observation: read() called again after end of file / hard error");
         }
         match (&rd.hard, r) {
             (Some((kind, tag)), Err(StreamErr::Io(e))) => {
